@@ -3,11 +3,15 @@
 # meta.json "caught_by"), revert, and write seeded/SWEEP.md (maintenance aid; not a registered command)
 cd "$(dirname "$0")/.."
 out=seeded/SWEEP.md
-echo "| seeded change | check | exit | violations |" > $out
-echo "|---|---|---|---|" >> $out
+# with arguments: only those seeded ids, appended to the existing table
+if [ $# -eq 0 ]; then
+  echo "| seeded change | check | exit | violations |" > $out
+  echo "|---|---|---|---|" >> $out
+  set -- $(ls -d seeded/*/ | xargs -n1 basename)
+fi
 git -C /repo diff --quiet || { echo "/repo has uncommitted changes"; exit 2; }
-for d in seeded/*/; do
-  id=$(basename $d)
+for id in "$@"; do
+  d=seeded/$id/
   prop=$(python3 -c "import json,sys; d=json.load(open('$d/meta.json')); print(d.get('check_property') or d['property'])")
   if ! git -C /repo apply $PWD/$d/patch.diff 2>/dev/null; then echo "| $id | $prop | patch does not apply | |" >> $out; continue; fi
   ./vcheck $prop > out/sweep_$id.log 2>&1; rc=$?
